@@ -329,8 +329,11 @@ class Ref:
             W = self.W
             self.pre.append(And(Or(b.fs, b.fu), ULT(b.v, bv(W))))
             v = a.v << b.v
+            # typing of a shifted value when value and amount differ in
+            # signedness is not defined by the statement: ambiguous
             return Val(v, And(a.fs, (v >> b.v) == a.v),
-                       And(a.fu, LShR(v, b.v) == a.v), a.signed)
+                       And(a.fu, LShR(v, b.v) == a.v),
+                       a.signed if a.signed == b.signed else None)
         if op == ">>":
             self.sensitive += 1
             W = self.W
